@@ -178,6 +178,11 @@ def cases(tier, seed):
                 yield {"src": "mut.swaplines", "lines": prog[:i] + [prog[i + 1], prog[i]] + prog[i + 2:]}
             for tag, m in line_mutations(ln):
                 yield {"src": "mut." + tag.split(".")[0], "lines": prog[:i] + [m] + prog[i + 1:]}
+    # (b2) operands that are nothing but a symbol of an unusual shape (defined or not): @ and digits, a leading digit, hex-looking, register-like
+    for name in ("@8", "@9", "@19", "@98", "@", "@@", "9LIVES", "0X10", "EACH", "BH", "FFH", "1H", "X", "PC", "PCR", "A", "_Q", "Q_1", "a1", "L.1"):
+        for tmpl in (" BNE {}", " JMP {}", " LDX {}", " LDA #{}", " LDA [{}]", " LDA {},X", " LEAX {},PCR", " FCB 1,{}", "ZQ EQU {}", " FDB {}", " ORG {}", " END {}"):
+            yield {"src": "symshape", "lines": ["{} NOP".format(name), tmpl.format(name), " RTS"]}
+            yield {"src": "symshape.undef", "lines": [" NOP", tmpl.format(name), " RTS"]}
     # (c) lines over the line alphabet
     depth = 4 if thorough else 3
     for n in range(1, depth + 1):
